@@ -1979,8 +1979,15 @@ class GMod(G):
         main.extend(std_pending)
         for u in uses:
             main.append(("print", u))
-        neg = self.i(0, 9)
-        if neg == 0:
+        neg = self.i(0, 10)
+        if neg == 10:
+            # a module of the project asked for as a module of the standard library: the library has no such module
+            cands = [m for m in mods if m[0] not in self.STD_NAMES and len(self.paths[m[0]]) == 1]
+            if cands:
+                name, _s, exports, _p = self.pick(cands)
+                main.append(("import", ["std", name], ("whole", "neg_std")))
+                main.append(("print", ("str", "unreachable")))
+        elif neg == 0:
             name, _s, exports, _p = self.pick(mods)
             private = [k[1:] for k in exports if k.startswith("!")]
             if private:
